@@ -191,6 +191,7 @@ package chain
 //@   nopanic
 //@   requires m != nil
 //@   ensures [id] result1 ==> result0.ID() == id
+//@   ensures [copy] result1 ==> isCopy(result0)
 //@   ensures [absent] !result1 ==> forall i int :: { m.txpool.v2txns[i] } 0 <= i && i < len(m.txpool.v2txns) ==> m.txpool.v2txns[i].ID() != id
 //
 // chain.Store against an abstract state (ghost maps; one store per manager):
@@ -295,6 +296,8 @@ package chain
 //@   assigns elems:types.V2Transaction, elems:types.V2SiacoinInput, elems:types.V2SiafundInput, elems:types.V2FileContractRevision, elems:types.V2FileContractResolution, elems:types.Hash256, heap:types.V2StorageProof
 //@   requires m != nil
 //@   ensures forall i int :: { m.txpool.v2txns[i] } 0 <= i && i < len(m.txpool.v2txns) ==> m.txpool.v2txns[i] == old(m.txpool.v2txns[i])
+//@   ensures forall i int :: { result0[i] } 0 <= i && i < len(result0) ==> isCopy(result0[i])
+//@   ensures !sameArray(result0, m.txpool.v2txns)
 //
 // Submission is all-or-nothing: on an error the pool has exactly the transactions it had
 // after the initial revalidation (same lengths, same indexed ids).
@@ -334,6 +337,8 @@ package chain
 //@     invariant nOld <= len(m.txpool.v2txns)
 //@     invariant len(m.txpool.txns) == preLen1
 //@     invariant m.txpool.indices == idxRef && idxRef != nil
+//@     invariant [owned] forall i int :: { m.txpool.v2txns[i] } preLen <= i && i < len(m.txpool.v2txns) ==> isCopy(m.txpool.v2txns[i])
+//@     invariant [set-owned] !sameArray(txns, m.txpool.v2txns) && (forall i int :: { txns[i] } 0 <= i && i < len(txns) ==> isCopy(txns[i]))
 //@   loop "range m.txpool.v2txns[nOld:]"
 //@     invariant m == old(m)
 //@     invariant nOld == preLen
@@ -379,3 +384,26 @@ package chain
 //@   ensures [reach-tip-a] err == nil && len(rus) + len(aus) < maxBlocks && len(aus) > 0 ==> aus[len(aus)-1].State.Index.ID == m.tipState.Index.ID
 //@   ensures [reach-tip-r] err == nil && len(rus) + len(aus) < maxBlocks && len(aus) == 0 && len(rus) > 0 ==> rus[len(rus)-1].State.Index == m.tipState.Index
 //@   ensures [reach-tip-0] err == nil && 0 < maxBlocks && len(aus) == 0 && len(rus) == 0 ==> index == m.tipState.Index
+//
+// C14 (aliasing): v2 transactions handed out by pool queries are deep copies, so mutating them
+// cannot affect the pool; transactions stored by a v2 submission are deep copies of the caller's.
+// isCopy(t) is only ever established by DeepCopy (assumed contract on core).
+//@ func (*Manager).V2PoolTransactions props C14
+//@   nopanic
+//@   requires m != nil
+//@   loop "range m.txpool.v2txns"
+//@     invariant m == old(m) && len(v2txns) == len(m.txpool.v2txns) && -1 <= rangeindex && rangeindex < len(v2txns) + 0
+//@     invariant forall i int :: { v2txns[i] } 0 <= i && i <= rangeindex ==> isCopy(v2txns[i]) && v2txns[i].ID() == m.txpool.v2txns[i].ID()
+//@   ensures [copies] forall i int :: { result[i] } 0 <= i && i < len(result) ==> isCopy(result[i])
+//@   ensures [same] len(result) == len(m.txpool.v2txns) && (forall i int :: { result[i] } 0 <= i && i < len(result) ==> result[i].ID() == m.txpool.v2txns[i].ID())
+//
+//@ func (*Manager).TransactionsForPartialBlock props C14
+//@   requires m != nil
+//@   loop "range missing"
+//@     invariant m == old(m) && len(v2txns) == 0
+//@   loop "range m.txpool.txns"
+//@     invariant m == old(m) && len(v2txns) == 0
+//@   loop "range m.txpool.v2txns"
+//@     invariant m == old(m)
+//@     invariant forall i int :: { v2txns[i] } 0 <= i && i < len(v2txns) ==> isCopy(v2txns[i])
+//@   ensures [copies] forall i int :: { result1[i] } 0 <= i && i < len(result1) ==> isCopy(result1[i])
